@@ -76,7 +76,7 @@ type viewCtx struct {
 }
 
 func labelsOf(e epSpec) map[string]string {
-	m := map[string]string{}
+	m := map[string]string{"app": "svc"}
 	if e.Version != "" {
 		m["version"] = e.Version
 	}
@@ -94,16 +94,17 @@ func judge(e epSpec, c viewCtx) epVerdict {
 	}
 	// subset labels
 	if c.Cl.Subset != "" {
+		sel, defined, lower := c.DR.selector(c.Cl.Subset)
 		match := true
-		for k, v := range subsetLabels[c.Cl.Subset] {
+		for k, v := range sel {
 			if labelsOf(e)[k] != v {
 				match = false
 			}
 		}
-		if !match {
-			if !c.DR.None {
-				return epVerdict{V: forbidden, Why: "subset-labels-do-not-match"}
-			}
+		switch {
+		case defined && !match:
+			return epVerdict{V: forbidden, Why: "subset-labels-do-not-match"}
+		case !defined && !(lower && match):
 			open = "subset-not-defined"
 		}
 	}
